@@ -6,6 +6,8 @@ package main
 import (
 	"fmt"
 	"go/types"
+
+	"golang.org/x/tools/go/ssa"
 )
 
 type stdoutState struct {
@@ -13,6 +15,23 @@ type stdoutState struct {
 	failAt int
 	writes int
 	failed bool
+	pipe   bool // the failing sink is a closed pipe (EPIPE / SIGPIPE) instead of a full device (ENOSPC)
+}
+
+// exitPanic ends the program under test: os.Exit, log.Fatal or death by signal.
+type exitPanic struct {
+	code   int
+	signal bool
+}
+
+func (in *Interp) errnoError(op, name string, errno uint64) value {
+	et := in.findType("io/fs", "PathError")
+	z := in.zero(et).(structure)
+	z[0] = op
+	z[1] = name
+	z[2] = iface{t: in.findType("syscall", "Errno"), v: in.tb.BV(SBV64, errno)}
+	var cell value = z
+	return iface{t: types.NewPointer(et), v: &cell}
 }
 
 func (in *Interp) osGlobal(name string) *value {
@@ -77,7 +96,14 @@ func init() {
 		if st.failAt >= 0 && st.writes >= st.failAt {
 			st.writes++
 			st.failed = true
-			return tuple{in.intConst(0), in.pathError("write", "/dev/stdout", "no space left on device")}
+			if st.pipe {
+				if !in.path.sigpipeIgnored {
+					// a write to a closed pipe on descriptor 1 raises SIGPIPE; not ignored: the process dies
+					panic(exitPanic{code: 141, signal: true})
+				}
+				return tuple{in.intConst(0), in.errnoError("write", "/dev/stdout", 32)} // EPIPE
+			}
+			return tuple{in.intConst(0), in.errnoError("write", "/dev/stdout", 28)} // ENOSPC
 		}
 		st.writes++
 		st.atoms = append(st.atoms, in.ropeOf(data).atoms...)
@@ -101,6 +127,77 @@ func init() {
 		name := "/virtual/dir/" + in.concStr(args[0], "directory tag")
 		in.vfs()[name] = &vfile{name: name, content: "", exists: true, isDir: true}
 		return name
+	}
+	// verifMain(kind, args): the program's main() with os.Args = args and standard output
+	// 0 healthy, 1 a full device (every write fails with ENOSPC), 2 a closed pipe (SIGPIPE, or
+	// EPIPE when the program ignores the signal); returns the exit status (0 when main returns)
+	shims["verifMain"] = func(in *Interp, fr *frame, args []value) (res value) {
+		kind := in.toInt(args[0], "stdout kind")
+		t := in.findType("os", "File")
+		mk := func(failAt int, pipe bool) *value {
+			cell := in.zero(t)
+			p := &cell
+			in.path.side[p] = &stdoutState{failAt: failAt, pipe: pipe}
+			return p
+		}
+		failAt := -1
+		if kind != 0 {
+			failAt = 0
+		}
+		out := mk(failAt, kind == 2)
+		*in.osGlobal("Stdout") = out
+		*in.osGlobal("Stderr") = mk(-1, false)
+		in.path.stdout = out
+		in.path.sigpipeIgnored = false
+		osArgs := []value{}
+		for _, a := range args[1].([]value) {
+			osArgs = append(osArgs, a)
+		}
+		*in.osGlobal("Args") = osArgs
+		var mainFn *ssa.Function
+		for _, p := range in.prog.AllPackages() {
+			if p.Pkg.Name() == "main" && p.Func("main") != nil && p.Func("GetApp") != nil {
+				mainFn = p.Func("main")
+			}
+		}
+		if mainFn == nil {
+			panic(unsupported{"verifMain: no main function"})
+		}
+		defer func() {
+			if r := recover(); r != nil {
+				if e, ok := r.(exitPanic); ok {
+					res = in.intConst(int64(e.code))
+					return
+				}
+				panic(r)
+			}
+		}()
+		in.call(fr, 0, mainFn, nil)
+		return in.intConst(0)
+	}
+	externals["os.Exit"] = func(in *Interp, fr *frame, args []value) value {
+		panic(exitPanic{code: in.toInt(args[0], "exit status")})
+	}
+	fatal := func(in *Interp, fr *frame, args []value) value { panic(exitPanic{code: 1}) }
+	externals["log.Fatal"] = fatal
+	externals["log.Fatalf"] = fatal
+	externals["log.Fatalln"] = fatal
+	externals["os/signal.Ignore"] = func(in *Interp, fr *frame, args []value) value {
+		sigs, _ := args[0].([]value)
+		if len(sigs) == 0 {
+			in.path.sigpipeIgnored = true // Ignore() without arguments ignores every signal
+		}
+		for _, sg := range sigs {
+			if itf, ok := sg.(iface); ok {
+				if t, ok := itf.v.(*Term); ok && t.IsConst() && t.val == 13 {
+					in.path.sigpipeIgnored = true
+				}
+			}
+		}
+		return nil
+	}
+	externals["os/signal.Notify"] = func(in *Interp, fr *frame, args []value) value {
+		panic(unsupported{"signal.Notify"})
 	}
 	// verifNum(tag): a number token whose bytes are fixed text and whose VALUE (what
 	// strconv.ParseFloat returns for exactly this token) is a solver variable
